@@ -36,6 +36,7 @@ func timeOnIndex(idx types.Object) func(*Atom) bool {
 }
 
 func runC01(c *Ctx) {
+	popShapeRule(c)
 	p := c.P
 	dom := []int{0, 1, 2}
 
@@ -470,4 +471,50 @@ func runC02(c *Ctx) {
 		c.Check(bad == "", "loop-siblings", "timing.SerialEngine."+name, p.Decl(f).Pos(), "dispatches only through dispatchNext", bad)
 	}
 	c.Floor("loop-siblings", 2)
+}
+
+// popShapeRule: popHeap removes the root, writes the shortened heap back through
+// its pointer and restores the heap order by sifting down — on the very slice it
+// wrote back. Sifting a different backing array than the one stored leaves the
+// stored heap with an unsifted root.
+func popShapeRule(c *Ctx) {
+	p := c.P
+	f := c.fn("pop-shape", "timing", "", "popHeap")
+	if f == nil {
+		return
+	}
+	fn := p.SSAFunc(f)
+	hp := fn.Params[0]
+	var stored []ssa.Value
+	var sifted []ssa.Value
+	for _, b := range fn.Blocks {
+		for _, in := range b.Instrs {
+			switch x := in.(type) {
+			case *ssa.Store:
+				if x.Addr == ssa.Value(hp) {
+					stored = append(stored, x.Val)
+				}
+			case ssa.CallInstruction:
+				if sc := x.Common().StaticCallee(); sc != nil && sc.Name() == "down" && len(x.Common().Args) > 0 {
+					sifted = append(sifted, x.Common().Args[0])
+				}
+			}
+		}
+	}
+	why := ""
+	if len(stored) == 0 || len(sifted) == 0 {
+		why = "popHeap does not both write the shortened heap back and sift it down"
+	}
+	same := func(a, b ssa.Value) bool {
+		a, b = stripConv(a), stripConv(b)
+		return a == b
+	}
+	for _, s := range stored {
+		for _, d := range sifted {
+			if !same(s, d) {
+				why = "popHeap writes one slice back as the heap (" + VKey(s) + ") but restores the heap order on another (" + VKey(d) + "): when they do not share a backing array the stored heap keeps an unsifted element at its root and the next pop returns it ahead of earlier events"
+			}
+		}
+	}
+	c.Check(why == "", "pop-shape", "timing.popHeap", p.Decl(f).Pos(), "the slice written back is the slice that is sifted", why)
 }
